@@ -271,6 +271,9 @@ def method_calls_on_attr(m, attr, methods, prefix='pytableaux'):
                 yield mod, qn, fn, c
 
 
+_SITES = {}
+
+
 def helper_closure(m, module, cls_qual, owners):
     """Methods of class `cls_qual` (module `module`) that are private helpers of the `owners`: every call site of the
     method's name anywhere in the package (`<x>.<name>(...)`) lies inside an owner or inside another such helper.
@@ -279,12 +282,16 @@ def helper_closure(m, module, cls_qual, owners):
     fns = dict(all_functions(m.trees[module]))
     cand = {qn for qn in fns if qn.startswith(cls_qual + '.') and qn.count('.') == cls_qual.count('.') + 1}
     ok = set(owners)
-    sites = {}
-    for mod, qn, fn in iter_functions(m):
-        for c in calls(fn, nested=False):
-            f = c.func
-            if isinstance(f, ast.Attribute):
-                sites.setdefault(f.attr, []).append((mod, qn))
+    sites = _SITES.get(id(m))
+    if sites is None:
+        sites = {}
+        for mod, qn, fn in iter_functions(m):
+            for c in calls(fn, nested=False):
+                f = c.func
+                if isinstance(f, ast.Attribute):
+                    sites.setdefault(f.attr, []).append((mod, qn))
+        _SITES.clear()
+        _SITES[id(m)] = sites
     changed = True
     while changed:
         changed = False
